@@ -112,6 +112,10 @@ func runC08(r *ev.Run, thorough bool) {
 			l.Transitions += 2
 			l.Traces++
 			viol := c08Wire(t, w)
+			if viol == nil {
+				// the same wire followed by 512 further bytes: the decoder must consume the same message and re-encode it
+				viol = c08Wire(t, append(append([]byte{}, w...), trailing512...))
+			}
 			// count acceptance (cheap second decode avoided: c08Wire returns nil for both; use ref acceptance)
 			_, _, rerr := rm.DecodeRef(t, w)
 			if rerr == nil {
@@ -189,7 +193,7 @@ func cutField(t *rm.Type, w []byte, k int) string {
 }
 
 func runC11(r *ev.Run, thorough bool) {
-	r.Rule = "per type: every canonical value of V1 (all list lengths 0..3 and 255..257, every registered key, empty and full texts; V2 of structural positions in thorough) x EVERY cut position 0..len-1: decoding the strict prefix must return an error; distinct = (type, prefix bytes); zero-length encodings have no strict prefix and are counted separately"
+	r.Rule = "per type: every canonical value of V1 (all list lengths 0..3 and 255..257, every registered key, empty and full texts; V2 of structural positions in thorough) x EVERY cut position 0..len-1; for encodings of 60,000 bytes and more (texts/lists of 65,535..70,000 elements) cuts at every multiple of 4096 from either end +-1 and the first/last 64 positions: decoding the strict prefix must return an error; distinct = (type, prefix bytes); zero-length encodings have no strict prefix and are counted separately"
 	parTypes(r, bind.Types, func(t *rm.Type, l *ev.Local) {
 		seen := map[uint64]struct{}{}
 		k := 1
@@ -221,6 +225,69 @@ func runC11(r *ev.Run, thorough bool) {
 				key := ev.H(t.QName() + string(w[:cut]))
 				l.Eval(key, true)
 				l.States[key] = struct{}{}
+				l.Transitions++
+				l.Traces++
+				if viol := c11Cut(t, w, cut); viol != nil {
+					viol.Detail = "value base " + c.Base + " {" + c.Desc + "}: " + viol.Detail
+					r.Violate(viol)
+					return !r.TooMany()
+				}
+			}
+			return true
+		})
+	})
+	// long encodings (texts and lists of tens of thousands of bytes): cuts at every multiple of 4096 counted from
+	// either end, +-1, plus the first and last 64 positions — readers that work page by page or block by block
+	parTypes(r, bind.Types, func(t *rm.Type, l *ev.Local) {
+		seen := map[uint64]struct{}{}
+		valenum.Enum(t, valenum.Opts{K: 1, Canonical: true, Big: true}, func(c *valenum.Case) bool {
+			w, err := rm.EncodeBytes(c.V)
+			if err != nil || len(w) < 60000 {
+				return true
+			}
+			if !thorough && !containsAny(c.Desc, "=len ") {
+				return true // quick: only the long TEXTS (one read of many bytes); thorough: long lists too
+			}
+			h := ev.H(string(w))
+			if _, ok := seen[h]; ok {
+				return true
+			}
+			seen[h] = struct{}{}
+			cuts := map[int]struct{}{}
+			for i := 0; i < 16 && i < len(w); i++ {
+				cuts[i] = struct{}{}
+				cuts[len(w)-1-i] = struct{}{}
+			}
+			for k := 4096; k < len(w); k += 4096 {
+				for _, d := range []int{-1, 0, 1} {
+					if x := k + d; x > 0 && x < len(w) {
+						cuts[x] = struct{}{}
+					}
+					if x := len(w) - k + d; x > 0 && x < len(w) {
+						cuts[x] = struct{}{}
+					}
+				}
+			}
+			// and relative to the start of every long text / list body (the reader's own page or block grid)
+			if _, segs, _, e2 := rm.EncodeRef(c.V); e2 == nil {
+				for _, sg := range segs {
+					if (sg.Role == "vartext" && sg.Len >= 60000) || sg.Role == "count" {
+						base := sg.Off
+						if sg.Role == "count" {
+							base = sg.Off + sg.Len
+						}
+						for k := 4096; base+k < len(w); k += 4096 {
+							for _, d := range []int{-1, 0, 1} {
+								if x := base + k + d; x > 0 && x < len(w) {
+									cuts[x] = struct{}{}
+								}
+							}
+						}
+					}
+				}
+			}
+			for cut := range cuts {
+				l.Eval(ev.H(fmt.Sprint(t.QName(), "long", h, cut)), true)
 				l.Transitions++
 				l.Traces++
 				if viol := c11Cut(t, w, cut); viol != nil {
@@ -269,3 +336,5 @@ func containsAny(s string, subs ...string) bool {
 	}
 	return false
 }
+
+var trailing512 = bytes.Repeat([]byte{0xA7}, 512)
